@@ -515,7 +515,7 @@ func timeLess(x, y Value) *term.T {
 func (ex *Exec) clockNow() *term.T {
 	n := ex.Fresh("now", 64)
 	if ex.st.clock != nil {
-		ex.Assume(term.Sle(ex.st.clock, n))
+		ex.Assume(term.And(term.Sle(ex.st.clock, n), term.Sle(n, mkInt(1<<61))))
 	} else {
 		// the clock starts after 2000-01-01 and stays far from overflow
 		ex.Assume(term.And(term.Sle(mkInt(946684800000000), n), term.Sle(n, mkInt(1<<61))))
